@@ -7,9 +7,9 @@ from .common import Outcome, parallel, run_driver
 from .tlc import MachineryError
 
 INV = ["C08_NameFirst", "C08_PrefixSecond", "C08_CtorSeesEarlierOnly"]
-QUICK = dict(attr=["none", "xA", "xInt", "privA", "xA_class", "peer", "inhA"], ctor=["none", "xA", "peer"],
+QUICK = dict(attr=["none", "xA", "xInt", "privA", "xA_class", "xA_base", "peer", "inhA"], ctor=["none", "xA", "peer"],
              rx=["missing", "A", "B", "zero", "none"], rcx=["missing", "A", "none"], mode=["none", "xA", "c1", "yA"])
-THOROUGH = dict(attr=["none", "xA", "xB", "xInt", "xStr", "xList", "yA", "privA", "xA_class", "xA_init", "peer", "xA_peer", "inhA"],
+THOROUGH = dict(attr=["none", "xA", "xB", "xInt", "xStr", "xList", "yA", "privA", "xA_class", "xA_init", "xA_base", "peer", "xA_peer", "inhA"],
                 ctor=["none", "xA", "xInt", "peer", "priv"],
                 rx=["missing", "A", "B", "C", "zero", "int7", "empty", "none", "list"], rcx=["missing", "A", "B", "none"],
                 mode=["none", "xA", "c1", "yA"])
